@@ -3,6 +3,8 @@
 package c03
 
 import (
+	"fmt"
+
 	"pgregory.net/rapid"
 	"verif/busmodel"
 )
@@ -81,6 +83,14 @@ func Gen(t *rapid.T) *Case {
 			op.Seq = false
 			ops = append(ops, op)
 		}
+		// a handler that unsubscribes itself (or re-subscribes) is the classic re-entrant pattern
+		if len(k) > 2 && k[0] == 'h' && rapid.IntRange(0, 2).Draw(t, "selfUnsub") == 0 {
+			var ht, hs int
+			var hc bool
+			if _, err := fmtSscanf(k, &ht, &hs, &hc); err == nil {
+				ops[0] = Op{K: "unsub", T: ht, Slot: hs, Ctx: hc}
+			}
+		}
 		c.Nested[k] = ops
 	}
 	return c
@@ -88,4 +98,8 @@ func Gen(t *rapid.T) *Case {
 
 func itoa(n int) string {
 	return string(rune('0' + n))
+}
+
+func fmtSscanf(k string, t, slot *int, ctx *bool) (int, error) {
+	return fmt.Sscanf(k, "h/%d/%d/%t", t, slot, ctx)
 }
